@@ -237,6 +237,64 @@ func probesAt(s *chain.Sim, rng *rand.Rand) []probe {
 		}
 	}
 
+	// --- maturity of an output created EARLIER IN THE SAME BLOCK: a siafund claim pays an output that matures
+	// MaturityDelay blocks later; a following transaction of the block that spends it must be rejected (v1: parent found
+	// in the block's own diffs, no supplement record; v2: ephemeral parent record)
+	if net.MaturityDelay > 0 {
+		n := 0
+		for _, e := range s.St.SortedSF() {
+			r := s.RecipeFor(e.SiafundOutput.Address)
+			if r == nil || n >= 2 || e.SiafundOutput.Value == 0 {
+				continue
+			}
+			claim := s.Tip.SiafundTaxRevenue.Sub(e.ClaimStart).Div64(s.Tip.SiafundCount()).Mul64(e.SiafundOutput.Value)
+			if claim.IsZero() {
+				continue
+			}
+			dest := s.W.NewRecipeKind("uc1", 0, med)
+			matures := child + net.MaturityDelay
+			if v1ok && r.V1Spendable() && s.Spendable(e.SiafundOutput.Address, false) {
+				t1 := types.Transaction{
+					SiafundInputs:  []types.SiafundInput{{ParentID: e.ID, UnlockConditions: *r.UC, ClaimAddress: dest.Addr}},
+					SiafundOutputs: []types.SiafundOutput{{Value: e.SiafundOutput.Value, Address: dest.Addr}},
+				}
+				t2 := types.Transaction{
+					SiacoinInputs:  []types.SiacoinInput{{ParentID: e.ID.ClaimOutputID(), UnlockConditions: *dest.UC}},
+					SiacoinOutputs: []types.SiacoinOutput{{Value: claim, Address: dest.Addr}},
+				}
+				if s.ResignV1(&t1) && s.ResignV1(&t2) {
+					b := emptyBlock(s)
+					b.Transactions = []types.Transaction{t1, t2}
+					add("maturity-v1-inblock", matures, false, b, consensus.V1BlockSupplement{Transactions: []consensus.V1TransactionSupplement{{SiafundInputs: []types.SiafundElement{e.Copy()}}, {}}})
+					// control: the claim alone is fine
+					b2 := emptyBlock(s)
+					b2.Transactions = []types.Transaction{t1}
+					add("maturity-v1-inblock-control", matures, true, b2, consensus.V1BlockSupplement{Transactions: []consensus.V1TransactionSupplement{{SiafundInputs: []types.SiafundElement{e.Copy()}}}})
+					n++
+				}
+			}
+			if v2ok && s.Spendable(e.SiafundOutput.Address, true) {
+				t1 := types.V2Transaction{
+					SiafundInputs:  []types.V2SiafundInput{{Parent: e.Copy(), ClaimAddress: dest.Addr}},
+					SiafundOutputs: []types.SiafundOutput{{Value: e.SiafundOutput.Value, Address: dest.Addr}},
+				}
+				if s.ResignV2(&t1) {
+					t2 := types.V2Transaction{
+						SiacoinInputs: []types.V2SiacoinInput{{Parent: types.SiacoinElement{ID: e.ID.V2ClaimOutputID(),
+							StateElement:  types.StateElement{LeafIndex: types.UnassignedLeafIndex},
+							SiacoinOutput: types.SiacoinOutput{Value: claim, Address: dest.Addr}, MaturityHeight: matures}}},
+						SiacoinOutputs: []types.SiacoinOutput{{Value: claim, Address: dest.Addr}},
+					}
+					if s.ResignV2(&t2) {
+						b := types.Block{Timestamp: s.NextTimestamp(), V2: &types.V2BlockData{Transactions: []types.V2Transaction{t1, t2}}}
+						add("maturity-v2-inblock", matures, false, b, consensus.V1BlockSupplement{})
+						n++
+					}
+				}
+			}
+		}
+	}
+
 	// --- v1 contracts
 	if v1ok {
 		n := 0
